@@ -133,6 +133,11 @@ func init() {
 			if r == nil || r.obs == nil {
 				continue
 			}
+			// whatever Parse makes of it, the decoded document is the document that was written
+			if want, got := sx.String(dvSexp(d, form == "json")), sx.String(r.caseSx); !hasTimestamp(d) && want != got {
+				oracleFail("C13", "decode-differs-from-document", c, fmt.Sprintf("the document denotes %s but decodes to %s", want, got))
+				continue
+			}
 			statN("C13", "injected-type-errors", g.injected)
 			nt := "1"
 			if g.injected == 0 {
